@@ -22,6 +22,7 @@ _MSG = {}
 
 
 _DECOY = [None]
+_PREFIX = [None]
 
 
 def _fails(prop_id, spec, sc, rule):
@@ -29,7 +30,7 @@ def _fails(prop_id, spec, sc, rule):
     if not _valid(spec):
         return False, None
     _, st, pay = runner.run_one(driver.replay_job, {"prop": prop_id, "spec": spec, "scenario": sc, "rule": rule,
-                                                    "decoy_spec": _DECOY[0]}, wall=90)
+                                                    "decoy_spec": _DECOY[0], "prefix_scenarios": _PREFIX[0]}, wall=90)
     if st != "ok":
         return False, None
     for v in pay["violations"]:
@@ -65,11 +66,12 @@ def _ddmin_list(items, test):
     return items
 
 
-def minimise(prop_id, mod, spec, sc, rule, budget_s=150, max_tests=120, decoy=None):
+def minimise(prop_id, mod, spec, sc, rule, budget_s=150, max_tests=120, decoy=None, prefix=None):
     t0 = time.perf_counter()
     tests = [0]
     _MSG.clear()
     _DECOY[0] = None
+    _PREFIX[0] = None
     needs_decoy = None
     if decoy is not None:
         # does the failure need the earlier generation in the same process?
@@ -90,11 +92,34 @@ def minimise(prop_id, mod, spec, sc, rule, budget_s=150, max_tests=120, decoy=No
 
     # 0. must reproduce, twice with identical digest
     f1, p1 = _fails(prop_id, spec, sc, rule)
+    needs_prefix = False
+    if not f1 and prefix and sc is not None:
+        # the failure may need EARLIER RUNS of the same world (state kept by the emitted library between calls
+        # of different clients): replay them first, then shrink that list
+        if decoy is not None and _DECOY[0] is None:
+            _DECOY[0] = decoy
+            needs_decoy = True
+        _PREFIX[0] = list(prefix)
+        f1, p1 = _fails(prop_id, spec, sc, rule)
+        needs_prefix = f1
+        if f1:
+            def test_prefix(lst):
+                if tests[0] >= max_tests or time.perf_counter() - t0 > budget_s:
+                    return False
+                tests[0] += 1
+                old = _PREFIX[0]
+                _PREFIX[0] = lst
+                r = _fails(prop_id, spec, sc, rule)[0]
+                if not r:
+                    _PREFIX[0] = old
+                return r
+            _PREFIX[0] = _ddmin_list(list(_PREFIX[0]), test_prefix)
     f2, p2 = _fails(prop_id, spec, sc, rule)
     if not (f1 and f2):
         return spec, sc, {"minimised": False, "reproduced": False}
     info = {"minimised": True, "reproduced": True, "deterministic": p1.get("digest") == p2.get("digest"),
-            "needs_decoy": needs_decoy}
+            "needs_decoy": needs_decoy, "needs_earlier_runs": needs_prefix,
+            "prefix_scenarios": copy.deepcopy(_PREFIX[0]) if needs_prefix else None}
     if sc is not None:
         # 1. drop actors / operations
         def with_ops(flat):
@@ -145,6 +170,8 @@ def minimise(prop_id, mod, spec, sc, rule, budget_s=150, max_tests=120, decoy=No
     used = set()
     if sc is not None:
         used = {(o["service"], o["method"]) for a in sc["actors"] for o in a["ops"]}
+        for psc in _PREFIX[0] or ():
+            used |= {(o["service"], o["method"]) for a in psc["actors"] for o in a["ops"]}
     def prune_option_files(sp):
         """Option files must not name methods that no longer exist (that would be a different failure)."""
         alive = {f"{fs['package']}.{s['name']}.{m['name']}" for fs in sp["files"] for s in fs.get("services", ()) for m in s["methods"]}
